@@ -183,6 +183,33 @@ def run(ctx):
                     probs.append(f"stores {nm} coefficients `{src_of(stores[key])}` but validated `{src_of(arg)}`")
             elif not is_orig:
                 probs.append(f"validated corrected {nm} coefficients `{src_of(arg)}` but does not store them")
+        # corrected values must be derived from the matching original (alpha from alpha, beta from beta)
+        def deps(arg):
+            out, todo, seen = set(), [arg], set()
+            while todo:
+                e = todo.pop()
+                for nm in names_in(e):
+                    if nm in originals:
+                        out.add(nm)
+                    elif nm in casc.locals and nm not in seen:
+                        seen.add(nm)
+                        for n2 in casc.own_nodes():
+                            if isinstance(n2, ast.Assign) and any(isinstance(t2, ast.Name) and t2.id == nm for t2 in n2.targets):
+                                todo.append(n2.value)
+            return out
+
+        orig_alpha = [k for k, v in originals.items() if any("coeffs" in x for x in v) and not k.endswith("b")]
+        orig_beta = [k for k, v in originals.items() if (any("coeffsb" in x for x in v) or "None" in v) and k not in orig_alpha]
+        orig_basis = [k for k, v in originals.items() if v == [f"{res}['obasis']"]]
+        for arg, mine, other, nm in ((a_ca, orig_alpha, orig_beta, "alpha"), (a_cb, orig_beta, orig_alpha, "beta")):
+            if isinstance(arg, ast.Name) and arg.id not in originals:
+                dd = deps(arg)
+                if not (dd & set(mine)) or (dd & set(other)):
+                    probs.append(f"corrected {nm} coefficients `{src_of(arg)}` are derived from {sorted(dd - set(orig_basis))}, not from the loaded {nm} coefficients")
+        if isinstance(a_ob, ast.Name) and a_ob.id not in originals:
+            dd = deps(a_ob)
+            if not (dd & set(orig_basis)):
+                probs.append(f"corrected basis `{src_of(a_ob)}` is not derived from the loaded basis")
         if stores["ca"] is not None and stores["cb"] is None and not (isinstance(a_cb, ast.Name) and a_cb.id in originals and "None" in originals[a_cb.id] and len(originals[a_cb.id]) > 1):
             # restricted/unrestricted split: beta store may sit in an else branch -- already collected by walk_stmts
             pass
